@@ -1,4 +1,5 @@
 import Mimium.Proofs.RustGen
+import Mimium.Proofs.MirExample
 import Mimium.Proofs.MirLayout
 import Mimium.Proofs.MirCfg
 /-!
@@ -303,4 +304,24 @@ theorem C18_fn_run_is_dispatch_loop (P : Prog) (n fi : Nat) (f : Fn) (hf : P.fns
 
 end MirInstance
 
+
+/-! ### non-vacuity on a real dump (`Proofs/MirExample.lean`), kernel-evaluated -/
+section MirExample
+open Mimium.Mir
+
+/-- the generator accepts the control skeleton (operand checks included) of every function of the example; all are forward and nested -/
+example : (exProg.fns.map fun f => (encode f.cfg).isSome && forward f.cfg && nested f.cfg) = [true, true, true, true, true, true] := by
+  decide +kernel
+
+/-- so for its `dsp` (an `if` between two stateful calls, a closure call) the emitted dispatch loop IS the MIR run, whatever the callees do -/
+example (callF : CallF) :
+    exProg.fns[5]? = some exProg_dsp ∧
+    ∃ body, encode exProg_dsp.cfg = some body ∧
+      ∀ n s, runBody (mirSem callF exProg exProg_dsp) body n s = (runBlocksM callF exProg exProg_dsp n 0 0 s).toOut := by
+  refine ⟨rfl, ?_⟩
+  have henc : (encode exProg_dsp.cfg).isSome = true := by decide +kernel
+  obtain ⟨body, hb⟩ := Option.isSome_iff_exists.mp henc
+  exact ⟨body, hb, fun n s => C18_cfg_run_is_mir_run callF exProg _ (Fn.build_cacheOk _ _ _ _ _ _ _ _) body hb n s⟩
+
+end MirExample
 end Mimium.RustGen
